@@ -18,6 +18,7 @@ def prepare():
     gens()
     from props import c07
     c07.gen_lex()
+    c07.gen()
 
 
 def t6():
@@ -37,7 +38,7 @@ def describe(e):
     if e["op"] == "walk":
         return "Line%s.ContainsLine(Line%s) -> %s" % (e["line"], e["other"], e["out"])
     if e["op"] == "parse":
-        return "Parse(%r) -> out=%s obj=%s err=%s" % (e.get("text"), e["out"], e.get("obj"), e.get("err"))
+        return "Parse(%r)%s -> out=%s obj=%s err=%s %s" % (e.get("text"), " [%s]" % e["m"] if e.get("m") else "", e["out"], e.get("obj"), e.get("err"), e.get("msg", ""))
     if e["op"] == "build":
         return "constructing %s -> %s (%s)" % (json.dumps(e.get("a"))[:400], e["out"], e.get("msg"))
     return "%s on a=%s b=%s -> %s %s" % (e.get("m"), json.dumps(e.get("a"))[:300], json.dumps(e.get("b"))[:300], e["out"], e.get("msg", ""))
@@ -58,7 +59,24 @@ def run(tier, seed, t0):
     # (ii)+(iii) sweep under the watchdog
     from props import c07
     ldata, lmeta = c07.gen_lex()
-    summ = json.loads(vlib.run_harness(["c05", od, wd, out, seed, tier], timeout=5000, env={"VERIF_LEXROWS": ldata}))
+    summ = json.loads(vlib.run_harness(["c05", od, wd, out, seed, tier], timeout=5000, env={"VERIF_LEXROWS": ldata, "VERIF_DOCROWS": c07.split(c07.gen()[0])[0]}))
+    # (iv) building and searching the segment indexes over the series layouts of C04 (sizes up to 65 538 points): a panic is C05's
+    out4 = os.path.join(out, "c04")
+    os.makedirs(out4, exist_ok=True)
+    summ4 = json.loads(vlib.run_harness(["c04", out4, seed, tier], timeout=3000))
+    index_panics, last_series, nseries = 0, None, 0
+    for l in open(os.path.join(out4, "c04.events.ndjson")):
+        if '"op":"series"' in l:
+            last_series = l
+            nseries += 1
+        elif '"op":"panic"' in l:
+            e = json.loads(l)
+            ser = json.loads(last_series) if last_series else {}
+            index_panics += 1
+            if index_panics <= 30:
+                v.violation({"property": PID, "event": e, "series_layout": ser.get("layout"), "series_points": len(ser.get("pts", [])),
+                             "what": "building / searching the %s index (min points %s) of a %d-point series (layout %s) panics: %s" % (
+                                 e["kind"], e["minpts"], len(ser.get("pts", [])), ser.get("layout"), e["msg"])})
     events, mism, r = vlib.judge_trace("Trace_C05", os.path.join(out, "c05.events.ndjson"), timeout=3000)
     drift = [m for m in mism if m[0] == "DRIFT"]
     for m in [m for m in mism if m[0] == "MISMATCH"]:
@@ -88,11 +106,14 @@ def run(tier, seed, t0):
                 "constructor outputs, circles with zero/negative/NaN/huge radius, 70-point degenerate series, 2^16 coordinates). "
                 "(iii) Parse on model-rendered texts, every (strided) prefix, single-byte damage, 0x00/0x01 prefixes, nesting to depth "
                 "10000, and the ~100 000 texts generated from the state graph of the JSON automaton (JsonLex / Gen_Lex: one text per "
-                "transition, legal or not, in whole-text, member and coordinate position), under 4-5 option sets. All run in a worker process under a per-call watchdog (4 s); every abnormal outcome, "
+                "transition, legal or not, in whole-text, member and coordinate position) and the ~11 000 documents of Gen_Doc, under 4-5 "
+                "option sets; every object Parse returns is then put through every unary method. (iv) the segment indexes are built and "
+                "searched over the series layouts of C04 (up to 65 538 points, 7 index configurations); a panic there is a violation here. All run in a worker process under a per-call watchdog (4 s); every abnormal outcome, "
                 "every walk and every Parse outcome is judged by Trace_C05. distinct_nontrivial = executed cases (all distinct)" % (
                     len(walks), len(json.loads("[]")) or 15, 7, summ["objects"]),
         "samples": [{"T6_lasso_found_by_TLC": lasso, "real_code_on_that_input": lasso_real},
                     {"event": [e for e in events if e["op"] == "binary"][:1]}, {"event": [e for e in events if e["op"] == "parse"][5:6]}],
+        "index_series_built": nseries, "index_panics": index_panics,
         "cases_by_kind": summ["by_kind"], "outcomes": summ["outcomes"], "worker_restarts": summ["worker_restarts"],
         "events_judged_by_tlc": len(events), "walk_model_drift": len(drift), "known_finding_hits": v.known_hits,
         "T6": {"termination_violated_on_model": bool(r6.violated), "states": r6.distinct},
